@@ -54,6 +54,14 @@ claim('C07', 'provenance-term coherence rules over reindex_axis / take_axis / re
       'Slice-by-slice equality and searchsorted neighbour semantics are not decided.',
       'Assumes ndarray.take semantics and the locate_many contract checked under C01-R4.', 'DESIGN.md §3 C07')
 
+claim('C08', 'dimension-identity coherence on provenance terms (reduce/drop), registry check of the _NumpyDesc descriptors, finite decision table of the NaN policy, metadata provenance',
+      'Decides structural clauses of C08: _get_axis_info resolves names and positions consistently; in apply_along_axis the axis handed to NumPy and the name '
+      'dropped from the result axes come from one resolution, the surviving axes are a by-name filter of the source axes (negative positions included) and the '
+      'metadata is passed on; every reduction descriptor is bound to its own NumPy name; _deal_with_axis groups a tuple of dimensions at the position it reduces; '
+      'skipna selects only NaN-ignoring / only NaN-propagating callables, masked results are filled with NaN, median propagates NaN; percentile reduces along the '
+      'resolved position, drops that axis by name, labels the new axis by pct and carries the metadata. Numerical equality with NumPy is not decided.',
+      'Assumes NumPy reduction semantics along axis= and numpy.ma mask semantics.', 'DESIGN.md §3 C08')
+
 UNDER_CONSTRUCTION = 'checker under construction in this session (claimed in DESIGN.md, not yet registered)'
 for pid in ['C01', 'C03', 'C04', 'C05', 'C06', 'C07', 'C08', 'C09', 'C10', 'C11', 'C12', 'C13', 'C14', 'C15', 'C16',
             'C17', 'C18', 'C19']:
